@@ -836,3 +836,10 @@ def single_edits(bases=None, alphabet=None, kinds=("sub", "del", "ins", "glue"))
                     yield " ".join(toks[:i] + [a] + toks[i:])
                 if i < len(toks) and "glue" in kinds and not a.endswith("\n"):
                     yield " ".join(toks[:i] + [a + toks[i]] + toks[i + 1:])
+        # every PAIR of adjacent tokens replaced, on the short forms
+        if "sub2" in kinds and len(toks) <= 6:
+            alpha = alphabet or EDIT_ALPHABET
+            for i in range(len(toks) - 1):
+                for a in alpha:
+                    for b in alpha:
+                        yield " ".join(toks[:i] + [a, b] + toks[i + 2:])
